@@ -341,8 +341,11 @@ def run(ck, facts, tier):
         ck.fail(r5, "Cal::new", "rule could not be established (%s)" % e)
     # a date is "reported as a holiday" through Cal's membership tests (C06 R06.2), and the back-test's "business days between first and last publication"
     # are enumerated by bus_date_range stepping with add_bus_days / the roll search (C05 R05.1, R05.5; C04 R04.1): necessary conditions of the statement
-    from rules import c06, c05, c04
+    from rules import c06, c05, c04, c16
     nd_, tb_ = list(ck.not_decided), list(ck.trusted)
+    # a built-in calendar that went through to_json/from_json or a pickle must still be that calendar: every stored field of the calendar types travels
+    # unchanged (C16 S16.2/S16.3/S16.7 for the calendar types only)
+    c16.run(ck, facts, tier, only_types=r"^calendars::calendar::")
     with ck.restrict({"R06.0", "R06.2"}):
         c06.run(ck, facts, tier)
     with ck.restrict({"R05.1", "R05.5", "R04.1", "R04.5"}):
